@@ -323,6 +323,10 @@ def cases(rng, tier):
                     [fmt("", [[fmt("m"), lit(" "), fmt("l")]], spec(1, None, None, "7"))],
                     [fmt("h", [[fmt("m")]]), lit(" "), fmt("message", (), spec(1, ("*", 0), "9", "9"))],
                     [fmt("l"), lit(" "), fmt("t"), lit(" - "), fmt("m"), fmt("n")],
+                    # an aligned GROUP that already holds text when the message (and with it the nested encode) starts
+                    [fmt("", [[fmt("l"), lit(" "), fmt("m")]], spec(1, (None, 1), "24"))],
+                    [fmt("", [[fmt("l"), lit(" "), fmt("m")]], spec(1, ("*", 0), "24"))],
+                    [fmt("", [[fmt("t"), lit(":"), fmt("", [[fmt("l"), fmt("m")]], spec(1, ("~", 1), "12"))]], spec(1, (None, 1), "30", "28"))],
                     [fmt("", [[fmt("", [[fmt("m")]], spec(1, ("~", 1), "6"))]], spec(1, None, None, "4"))]):
             for k in range(2 if tier == "quick" else 8):
                 c = mk(rng, tier, seq, envsel=env)
